@@ -53,7 +53,7 @@ Full statement / proved / missing
                       the real code (a stale `reducedType` of MutableHashValue was found and fixed that way);
                       (4) `Equals`/`ToKey` are modelled by one canonical key (their agreement is C07).
 -/
-namespace Pcore.Coll
+namespace Pcore.Heap
 open Pcore.Generated
 
 /-- obligation over the regenerated table -/
@@ -257,4 +257,4 @@ example : ¬ IdiomsSafe (("Array.Map/r0", .returnsReceiver) :: sliceIdioms) := b
 example : ¬ IdiomsSafe (("Array.Add/r0", .unknown "pool.Get()") :: sliceIdioms) := by decide
 example : ¬ IdiomsSafe (("Array.Reject/r0", .wrapsArgument) :: sliceIdioms) := by decide
 
-end Pcore.Coll
+end Pcore.Heap
